@@ -42,6 +42,9 @@ func (l LoadCfg) String() string {
 
 var defaultCfg = LoadCfg{GOOS: "linux", GOARCH: "amd64"}
 
+// sharedFset is used by every load of one check run, so positions of both modules can be rendered.
+var sharedFset = token.NewFileSet()
+
 // overlay is the process-wide in-memory file replacement used by selftest mutants.
 var overlay map[string][]byte
 
@@ -75,7 +78,7 @@ func loadWorld(dir string, lc LoadCfg, extraTags []string, patterns []string) (*
 	if lc.GOOS != "linux" || lc.GOARCH != "amd64" {
 		env = append(env, "CGO_ENABLED=0")
 	}
-	fset := token.NewFileSet()
+	fset := sharedFset
 	cfg := &packages.Config{
 		Mode: packages.NeedName | packages.NeedFiles | packages.NeedCompiledGoFiles | packages.NeedImports |
 			packages.NeedTypes | packages.NeedSyntax | packages.NeedTypesInfo | packages.NeedTypesSizes | packages.NeedModule,
